@@ -1549,7 +1549,9 @@ theorem exU3_enc : encodeBucket encCfg false none exU3
   have hv : encCfg.validate exU3 false = true := exU3_valid
   simp only [exU3, lbl] at hv
   simp [exU3, encodeBucket, hv, encodePairs, encodeAny, encodeList, cs1_enc, cs2_enc, lbl, encInt,
-    encHead, HW.shortest, headBytes, sortPairs, concatPairs]
+    encHead, HW.shortest, headBytes, sortPairs, concatPairs, cs1Bytes, cs2Bytes,
+    wellformedNoTags, parseTop, fuelFor, parseItem, parseItems, parsePairs, parseHead, maxNested,
+    maxElems]
 
 /-- discarding ALL raw bytes and encoding gives `exBC'` -/
 theorem exC_marshal_cleared : Sign1.marshal true (clearRawDeep exMC) = .ok exBC' := by
